@@ -291,13 +291,18 @@ static int print_expr (hawk_t* hawk, hawk_nde_t* nde)
 		{
 			hawk_nde_cnd_t* px = (hawk_nde_cnd_t*)nde;
 
-			PUT_SRCSTR (hawk, HAWK_T("("));
+			/* enclose the whole conditional expression in parentheses like
+			 * binary and unary expressions. otherwise, a conditional used as
+			 * an operand is torn apart when the text is parsed again.
+			 * e.g. 1 + (a? 2: 3) must not be printed as (1 + (a)?2:3) */
+			PUT_SRCSTR (hawk, HAWK_T("(("));
 			PRINT_EXPR (hawk, px->test);
 			PUT_SRCSTR (hawk, HAWK_T(")?"));
 
 			PRINT_EXPR (hawk, px->left);
 			PUT_SRCSTR (hawk, HAWK_T(":"));
 			PRINT_EXPR (hawk, px->right);
+			PUT_SRCSTR (hawk, HAWK_T(")"));
 			break;
 		}
 
